@@ -25,7 +25,7 @@ RULE = ("pairs: (a) (x, deepcopy(x)) for random nested values x (dict/list/tuple
         "edits per value (float +-0.5, int +-1, int<->float, bool<->int, str case/blank/newline, str<->bytes, list<->tuple, set<->frozenset, None<->False), "
         "(c) random independent pairs and all-atom list pairs related by insert/delete/replace/move/dup/rotate edits under 0-2 common levels, (d) a seeded sample (450 / 9000) of the ordered pairs of an exhaustive small universe (599 values), (e) values containing date/datetime/time/timedelta "
         "and numpy int/float arrays (direct oracle only); configurations: view {text,tree} x verbose_level {1,2} x threshold_to_diff_deeper "
-        "{0,0.33,0.9} x zip_ordered_iterables x cache_size {0,1,5000} x max_passes {0,1,10**7}: a random sample of 6 of the 216 per pair, the "
+        "{0,0.33,0.9,1,1.0} x zip_ordered_iterables x cache_size {0,1,5000} x max_passes {0,1,10**7}: a random sample of 6 of the 216 per pair, the "
         "full grid on every 60th pair. Non-trivial = the two values are not Python-equal or the diff is non-empty; distinct by (t1, t2, cfg).")
 TRUSTED = ["difflib.SequenceMatcher opcodes are an oracle: copy clause proved for every oracle that tiles the lists with balanced 'equal' blocks, soundness "
            "for every valid oracle ('equal' blocks pointwise ==); the correspondence feeds the model the opcodes difflib returns, and the Coq predicate "
@@ -42,9 +42,10 @@ ASSUMPTIONS = ["threshold_to_diff_deeper <= 1", "dict/set inputs satisfy Python'
                "soundness: the item hash is injective on the set members of the inputs; for the DeepHash scalar model: set members tag_safe (no str 'NONE' / containing ':'), "
                "any injective hasher (real DeepHash otherwise: finding K1)"]
 
-THRS = (0, 0.33, 0.9)
+THRS = (0, 0.33, 0.9, 1)          # model correspondence (1 = the upper end of the documented range: thr_num/thr_den = 1/1)
+GRID_THRS = (0, 0.33, 0.9, 1, 1.0)   # direct oracle: the boundary value both as int and as float
 GRID = [dict(view=v, verbose_level=vb, threshold_to_diff_deeper=thr, zip_ordered_iterables=z, cache_size=cs, max_passes=mp)
-        for v in ("text", "tree") for vb in (1, 2) for thr in THRS for z in (True, False)
+        for v in ("text", "tree") for vb in (1, 2) for thr in GRID_THRS for z in (True, False)
         for cs in (0, 1, 5000) for mp in (0, 1, 10 ** 7)]
 STRINGS = V.STR_POOL + ["a\nb", "a\nc\n", "__p", "__q", "it's", "NONE", "int:1"]
 
@@ -399,6 +400,45 @@ def gen_alias_pairs(ctx, n):
     return [(a, b, "aliased_set_members", False) for a, b in out]
 
 
+def gen_shared_pairs(ctx, n):
+    """t1 holds the SAME container object at two or three positions of one list / tuple / dict (sibling
+    sharing: still a tree as far as the diff is concerned, and what CPython does by itself for ()); t2 is
+    built from fresh copies, the first one equal and a later one changed.  A cycle guard that leaks
+    from one sibling to the next skips the later comparison."""
+    rng = ctx.rng
+    x1 = [1]
+    out = [([(), ()], [(), (1,)]), ([x1, x1], [[1], [2]]), ((x1, x1), ([1], [2])), ({"a": x1, "b": x1}, {"a": [1], "b": [2]}),
+           ([[x1, 0], [x1, 0]], [[[1], 0], [[3], 0]]), ([(), [()]], [(), [(2,)]])]
+    for _ in range(n):
+        x = V.gen_value(rng, depth=2, width=3, strings=STRINGS, kinds="LTDSF")
+        if not isinstance(x, (list, tuple, dict, set, frozenset)):
+            x = rng.choice([(), [x], (x,), {"k": x}])
+        k = rng.randint(2, 3)
+        changed = None
+        for _try in range(6):
+            y, kind = near_miss(rng, x) if rng.random() < 0.5 else V.edit(rng, x, strings=STRINGS)
+            if kind is not None and not deep_eq(x, y):
+                changed = y
+                break
+        if changed is None:
+            changed = [x, "extra"]
+        j = rng.randint(1, k - 1)                       # a later occurrence differs, the first one is equal
+        items2 = [copy.deepcopy(x) if i != j else changed for i in range(k)]
+        shape = rng.choice(["list", "tuple", "dict", "spaced"])
+        if shape == "list":
+            t1, t2 = [x] * k, items2
+        elif shape == "tuple":
+            t1, t2 = tuple([x] * k), tuple(items2)
+        elif shape == "dict":
+            keys = rng.sample(["a", "b", "c", 1, None], k)
+            t1, t2 = {q: x for q in keys}, {q: v for q, v in zip(keys, items2)}
+        else:
+            t1, t2 = [0, x, "s", x] + [x] * (k - 2), [0, items2[0], "s", items2[1]] + items2[2:]
+        t1, t2 = V.plant(rng, rng.choice([0, 0, 1, 2]), (t1, t2))
+        out.append((t1, t2))
+    return [(a, b, "shared_sibling_containers", False) for a, b in out]
+
+
 def small_pairs(ctx, n):
     u = V.small_universe(atoms=(None, True, 1, 1.0, "a", "NONE"), maxlen=2, depth=1, kinds="LTDS")
     u += [frozenset(x) for x in u if isinstance(x, set)]
@@ -717,7 +757,7 @@ def replay_witnesses(ctx):
 
 def run(ctx):
     n_values = 1500 if ctx.thorough else 130
-    pairs = gen_model_pairs(ctx, n_values) + small_pairs(ctx, 450) + gen_alias_pairs(ctx, 3000 if ctx.thorough else 250)
+    pairs = gen_model_pairs(ctx, n_values) + small_pairs(ctx, 450) + gen_alias_pairs(ctx, 3000 if ctx.thorough else 250) + gen_shared_pairs(ctx, 1500 if ctx.thorough else 120)
     cases, vcases, mcases = [], [], []
     pairs = [(stable_order(t1), stable_order(t2), kind, is_copy) for (t1, t2, kind, is_copy) in pairs]
     for i, (t1, t2, kind, is_copy) in enumerate(pairs):
